@@ -189,6 +189,25 @@ func ruleC15Codec(c *Ctx) {
 	} else {
 		c.Bad(rule, "frame payload | read", "", "Wire.Read must allocate and ReadFull the payload", nil)
 	}
+	// every frame Write produces is accepted: the only frame Read refuses by its content is one with
+	// a foreign magic; all other error returns forward the error of the read that failed (a "sanity
+	// check" on Size / Type / length is a condition Write does not establish - an error reply
+	// carries a text longer than its Size)
+	if ei := errResultIndex(rfn); ei >= 0 {
+		R := NewRenderer(rfn)
+		for _, r := range Returns(rfn) {
+			if ei >= len(r.Results) || !provablyNonNilError(r.Results[ei]) {
+				continue
+			}
+			if cl, ok := strip(r.Results[ei]).(*ssa.Call); ok {
+				if n := CalleeName(cl); n == "encoding/binary.Read" || n == "io.ReadFull" {
+					continue
+				}
+			}
+			c.Guard(rule, rfn, []ssa.Instruction{r}, "refuse a frame ("+R.V(r.Results[ei])+")", nil,
+				atom("foreign magic/version", "+var(rpc.Message).MagicVersion -6915 !=0"))
+		}
+	}
 	// locks
 	L := lockInfo(c.P)
 	for _, x := range []struct {
@@ -605,6 +624,32 @@ func ruleC15Client(c *Ctx) {
 				c.Bad(rule, FnName(fn)+" | completion channel is buffered", c.P.InstrPos(mk[0]), "unbuffered completion channel: completing a request whose caller timed out blocks the loop goroutine forever", nil)
 			}
 		}
+	}
+	// a request is completed only with a verdict: the waiter in operation() decides by the
+	// message's Type, so every send on a message's Complete channel is preceded, in the same
+	// function, by a store of that message's Type (TypeError, or the reply's type)
+	nComplete := 0
+	for _, fn := range pkgFuncs(c.P, "rpc") {
+		R := NewRenderer(fn)
+		eachInstr(fn, func(in ssa.Instruction) {
+			sd, ok := in.(*ssa.Send)
+			if !ok {
+				return
+			}
+			ch := R.V(sd.Chan)
+			if !strings.HasSuffix(ch, ".Complete") {
+				return
+			}
+			nComplete++
+			msg := strings.TrimSuffix(ch, ".Complete")
+			c.Guard(rule, fn, []ssa.Instruction{in}, "complete "+msg, nil, Need{Desc: "the message's Type was set", Instr: func(x ssa.Instruction) bool {
+				st, ok := x.(*ssa.Store)
+				return ok && R.V(st.Addr) == "&"+msg+".Type"
+			}})
+		})
+	}
+	if nComplete < 2 {
+		c.Undecided(rule, "rpc | completion sites", "", fmt.Sprintf("only %d sends on a Complete channel found", nComplete))
 	}
 	// the reader goroutine never ends silently: every exit passes c.SetError (any read error, EOF included)
 	if fn := c.Anchor(rule, fCli+"read"); fn != nil {
